@@ -199,6 +199,8 @@ func c16Opus(c *fw.Ctx, i int) {
 	}
 	if len(in) >= 3 && (i%3 == 0 || i > 321) && r.Chance(1, 2) {
 		gen.WithMagic(r, in) // audio that happens to start like a container header is audio
+	} else if len(in) >= 1 && r.Chance(1, 2) {
+		in = gen.OpusPacket(r, len(in)) // real Opus packets: TOC, frame count, padding
 	}
 	mtu := uint16(r.Pick(0, 1, 2, 100, 1200, 65535, r.Intn(65536)))
 	pristine := append([]byte(nil), in...)
